@@ -23,6 +23,8 @@ inductive V where
   | undef | silent | none
   | bool (b : Bool) | int (i : Int) | str (s : String)
   | seq (xs : List V) | map (kvs : List (String × V))
+  /-- a lazy iterable (`ValueKind::Iterable`): what slicing, concatenating or repeating a list gives -/
+  | iter (xs : List V)
 
 instance : Inhabited V := ⟨.undef⟩
 
@@ -39,12 +41,13 @@ def isTrue : V → Bool
   | bool b => b
   | int i => i != 0
   | str s => !s.isEmpty
-  | seq xs => !xs.isEmpty
+  | seq xs | iter xs => !xs.isEmpty
   | map kvs => !kvs.isEmpty
 
 /-- rank of `ValueKind` in the derived `Ord` (see `MJ.Gen.valueKindOrder`) -/
 def kindRank : V → Nat
   | undef | silent => 0 | none => 1 | bool _ => 2 | int _ => 3 | str _ => 4 | seq _ => 6 | map _ => 7
+  | iter _ => 6      -- `cmp_kind`: iterables share the slot of the sequences
 
 /-- `python_string_debug_fmt` (control characters are outside the model domain) -/
 def reprStr (s : String) : String :=
@@ -65,6 +68,7 @@ def repr : V → String
   | int i => toString i
   | str s => reprStr s
   | seq xs => "[" ++ reprList xs ++ "]"
+  | iter xs => "[" ++ reprList xs ++ "]"
   | map kvs => "{" ++ reprPairs kvs ++ "}"
 def reprList : List V → String
   | [] => ""
@@ -111,7 +115,7 @@ def beq : V → V → Bool
   | int a, int b => a == b
   | bool a, int b => (if a then 1 else 0) == b
   | int a, bool b => a == (if b then 1 else 0)
-  | seq a, seq b => beqList a b
+  | seq a, seq b | seq a, iter b | iter a, seq b | iter a, iter b => beqList a b
   | map a, map b => beqPairs a b
   | _, _ => false
 def beqList : List V → List V → Bool
@@ -138,7 +142,7 @@ def cmp : V → V → Ordering
       | str x, str y => cmpStr x y
       | bool x, bool y => cmpInt (if x then 1 else 0) (if y then 1 else 0)
       | int x, int y => cmpInt x y
-      | seq x, seq y => cmpList x y
+      | seq x, seq y | seq x, iter y | iter x, seq y | iter x, iter y => cmpList x y
       | map x, map y => cmpPairs x y
       | _, _ => .eq
 def cmpList : List V → List V → Ordering
@@ -172,9 +176,9 @@ def getItem (base key : V) : Except Err (Option V) :=
   match base, key with
   | map kvs, str k => .ok (mapGet kvs k)
   | map _, _ => .ok Option.none
-  | seq xs, int i => .ok (MJ.Slice.index? xs i)
-  | seq xs, bool b => .ok (MJ.Slice.index? xs (if b then 1 else 0))     -- `as_i64` of a bool
-  | seq _, _ => .ok Option.none
+  | seq xs, int i | iter xs, int i => .ok (MJ.Slice.index? xs i)
+  | seq xs, bool b | iter xs, bool b => .ok (MJ.Slice.index? xs (if b then 1 else 0))     -- `as_i64` of a bool
+  | seq _, _ | iter _, _ => .ok Option.none
   | str s, int i => .ok (MJ.Slice.index? (chars s) i)
   | str s, bool b => .ok (MJ.Slice.index? (chars s) (if b then 1 else 0))
   | str _, _ => .ok Option.none
@@ -193,13 +197,13 @@ def contains (container value : V) : Except Err Bool :=
   | map kvs => match value with
     | str k => .ok (mapGet kvs k).isSome
     | _ => .ok false
-  | seq xs => .ok (xs.any (fun v => beq v value))
+  | seq xs | iter xs => .ok (xs.any (fun v => beq v value))
   | _ => .error .invalidOperation
 
 /-- `Value::try_iter` (mode-independent part of iteration) -/
 def iterItems : V → Except Err (List V)
   | undef | silent | none => .ok []
-  | seq xs => .ok xs
+  | seq xs | iter xs => .ok xs
   | str s => .ok (chars s)
   | map kvs => .ok (kvs.map (fun p => str p.1))
   | _ => .error .invalidOperation
@@ -226,8 +230,8 @@ def slice (a start stop step : V) : Except Err V :=
         if sp' = some 0 then .error .invalidOperation else
         match a with
         | undef | silent | none => .ok (seq [])
-        | seq xs => match MJ.Slice.slice xs st sp sp' with
-          | .ok (.ok _) => .error (.unsupported "lazy iterable (slice of a list)")
+        | seq xs | iter xs => match MJ.Slice.slice xs st sp sp' with
+          | .ok (.ok ys) => .ok (iter ys)
           | .ok .zeroStep => .error .invalidOperation
           | .panic => .error (.unsupported "slice panic")
         | str s => match MJ.Slice.slice (chars s) st sp sp' with
@@ -249,15 +253,14 @@ def arith (op : ArOp) (a b : V) : Except Err V :=
   | _, _ =>
     match op, a, b with
     | .add, str x, str y => .ok (str (x ++ y))
-    | .add, seq _, seq _ => .error (.unsupported "lazy iterable (list concatenation)")
+    | .add, seq x, seq y | .add, seq x, iter y | .add, iter x, seq y | .add, iter x, iter y => .ok (iter (x ++ y))
     | .mul, str x, n | .mul, n, str x =>
         match asNum? n with
         | some k => if k < 0 then .error .invalidOperation else .ok (str (String.join (repeatList [x] k.toNat)))
         | Option.none => .error .invalidOperation
-    | .mul, seq x, n | .mul, n, seq x =>
+    | .mul, seq x, n | .mul, n, seq x | .mul, iter x, n | .mul, n, iter x =>
         match asNum? n with
-        | some k => if k < 0 then .error .invalidOperation else
-            (fun (_ : List V) => .error (.unsupported "lazy iterable (list repetition)")) x
+        | some k => if k < 0 then .error .invalidOperation else .ok (iter (repeatList x k.toNat))
         | Option.none => .error .invalidOperation
     | _, _, _ => .error .invalidOperation
 
@@ -420,15 +423,15 @@ def filterExec (name : String) (args : List V) : Except Err V :=
       | .error e => .error e
   | "first", [v] => match v with
       | .str s => .ok ((V.chars s).head?.getD .undef)
-      | .seq xs => .ok (xs.head?.getD .undef)
+      | .seq xs | .iter xs => .ok (xs.head?.getD .undef)
       | .map kvs => .ok ((kvs.head?.map (fun p => V.str p.1)).getD .undef)
       | _ => .error .invalidOperation
   | "last", [v] => match v with
       | .str s => .ok ((V.chars s).getLast?.getD .undef)
-      | .seq xs => .ok (xs.getLast?.getD .undef)
+      | .seq xs | .iter xs => .ok (xs.getLast?.getD .undef)
       | _ => .error .invalidOperation
   | "join", [v] => match v with
-      | .undef | .silent | .none | .seq _ | .str _ | .map _ => match V.iterItems v with
+      | .undef | .silent | .none | .seq _ | .iter _ | .str _ | .map _ => match V.iterItems v with
         | .ok xs => .ok (.str (joinWith "" xs))
         | .error _ => .error .invalidOperation
       | _ => .error .invalidOperation
@@ -441,7 +444,7 @@ def filterExec (name : String) (args : List V) : Except Err V :=
   | "length", [v] | "count", [v] =>
       match v with
       | .str s => .ok (.int s.length)
-      | .seq xs => .ok (.int xs.length)
+      | .seq xs | .iter xs => .ok (.int xs.length)
       | .map kvs => .ok (.int kvs.length)
       | _ => .error .invalidOperation
   | "attr", [v, k] =>
